@@ -294,13 +294,13 @@ type kase struct {
 	m        *model
 	owners   []string // all owner keys of the operated owner table
 	vals     []*ownerVal
-	slice    reflect.Value // *[]Owner in slice mode
-	ptrElems bool          // slice mode: the owners are a []*Owner
-	pool     string        // name of the key pools in use
-	universe []string      // application-assigned keys: unused target keys
+	slice    reflect.Value     // *[]Owner in slice mode
+	ptrElems bool              // slice mode: the owners are a []*Owner
+	pool     string            // name of the key pools in use
+	universe []string          // application-assigned keys: unused target keys
 	gone     map[string]string // records removed for good by an Unscoped call of this sequence: key -> name
 	callUsed map[string]bool   // keys of new / re-created records already named in the call being generated
-	noShare  bool          // belongs-to with Unscoped steps: a target is never linked to two owners
+	noShare  bool              // belongs-to with Unscoped steps: a target is never linked to two owners
 	newSeq   int
 	calls    []string
 	seedDump map[string]interface{}
@@ -933,7 +933,7 @@ func (k *kase) run() {
 		for _, p := range ps {
 			msgs = append(msgs, p.what+": "+p.msg)
 		}
-		d := map[string]interface{}{"relation": s.name, "owner_mode": modeNames[k.mode], "unscoped_mode": umNames[k.um], "initial_state": k.seedDump,
+		d := map[string]interface{}{"relation": s.name, "key_pools": k.pool, "owner_mode": modeNames[k.mode], "unscoped_mode": umNames[k.um], "initial_state": k.seedDump,
 			"calls": k.calls, "problems": msgs, "expected_links": k.m.linkDump(), "stored_links": s.readLinks()}
 		if st != nil {
 			d["failed_call"] = st.call
@@ -1087,7 +1087,7 @@ func (k *kase) run() {
 		k.shape = append(k.shape, fmt.Sprintf("%s/%v/%v/%s/%v", st.op, st.unscoped, st.sliceLvl, strings.Join(sortedKeys(cls), "+"), eff.changed))
 	}
 	if k.changes >= 2 {
-		c.Shape(s.name, k.mode, k.um, strings.Join(k.shape, ";"))
+		c.Shape(s.name, k.pool, k.mode, k.ptrElems, k.um, strings.Join(k.shape, ";"))
 		c.Inc("nontrivial_sequences")
 		c.Inc("nontrivial_" + s.name)
 		if c.WantSample() && c.Case%7 == 3 {
@@ -1237,6 +1237,48 @@ func (k *kase) sig(st *step, ps []problem, sn *snapshot, applied bool) string {
 			return "many2many-owner-slice-replace-keeps-other-owners-targets"
 		}
 	}
+	if applied && s.store == joinRows && !s.assigned && (st.op == "Append" || st.op == "Replace") {
+		// counterfactual: the targets of one owner are stored by one INSERT ... ON CONFLICT DO NOTHING
+		// RETURNING id; the returned keys are handed to the values without a key in order, values
+		// that came with a key are skipped - also when the INSERT did store them. The j-th keyless
+		// record then receives the key of the j-th stored row.
+		alt := cloneSets(k.m.links)
+		shifted := false
+		for i, ov := range st.owners {
+			ts := st.flat()
+			if st.sliceLvl {
+				ts = st.args[i].ts
+			}
+			set := map[string]bool{}
+			if st.op == "Append" {
+				for t := range sn.links[ov.ok] {
+					set[t] = true
+				}
+			}
+			var inserted []string
+			var keyless []*targ
+			for _, t := range ts {
+				switch t.class {
+				case "new":
+					inserted = append(inserted, t.key)
+					keyless = append(keyless, t)
+				case "newkey", "gone":
+					inserted = append(inserted, t.key)
+					set[t.key] = true
+				default:
+					set[t.key] = true
+				}
+			}
+			for j, t := range keyless {
+				set[inserted[j]] = true
+				shifted = shifted || inserted[j] != t.key
+			}
+			alt[ov.ok] = set
+		}
+		if shifted && sameLinks(alt, stored) && !sameLinks(k.m.links, stored) {
+			return "many2many-keyless-new-record-after-keyed-new-record-takes-its-key"
+		}
+	}
 	if s.store == fkOwner && (!applied || sameLinks(k.m.links, stored)) {
 		// (classes of the two integer-key belongs-to kinds keep their names; other kinds carry theirs)
 		keyKind, kind := ":"+s.name, ":"+s.name
@@ -1303,36 +1345,44 @@ func run(c *core.Ctx) {
 var Engine = &core.Engine{
 	ID:    "C12",
 	Level: "exploration",
-	Rule: "one sequence per case: relation kind (has many, has many with soft-delete targets, has one, belongs to, many-to-many, polymorphic has many, polymorphic has one, many-to-many with composite string keys) x owner mode (one owner value; two owner values; a slice of 2..3 owner values incl. calls on single elements) x scoping (scoped; Unscoped; mixed) are enumerated from the case index; " +
-		"owners/targets/links are seeded with raw SQL (bystander owners, a decoy polymorphic owner type with equal keys, optionally links of the operated owners); 3..8 random steps Append/Replace/Delete/Clear/Count/Find with targets drawn from brand-new, existing unlinked, already linked, linked to another owner, duplicate-in-call, in literal forms &T, T, []T, &[]T, []*T; " +
-		"after every step raw-SQL links and target rows, Count/Find (operated and fresh value) and the in-memory relation field are compared with the link-set model; distinct = (kind, owner mode, scoping, per step: op, unscoped, slice-level, target classes, changed); non-trivial = at least two steps changed the link set",
+	Rule: "one sequence per case: relation kind (has many, has many with soft-delete targets, has one, belongs to with value / pointer key column, many-to-many, polymorphic has many, polymorphic has one, many-to-many with two-column string keys; " +
+		"key shapes: belongs to a record with an application-assigned string key, belongs to a record with a two-column (integer,string) key through value key columns, has many through a two-column foreign key, many-to-many with two-column keys on both sides - in these three the keys are drawn from pools in which a part holds its zero value (site 0, slug \"\", locale \"\") and keys share parts) " +
+		"x owner mode (one owner value; two owner values; a slice of 2..3 owner values - []Owner or []*Owner, the latter also passed by value - incl. calls on single elements) x scoping (scoped; Unscoped; mixed) are enumerated from the case index; " +
+		"owners/targets/links are seeded with raw SQL (bystander owners, a decoy polymorphic owner type with equal keys, optionally links of the operated owners); 3..8 random steps Append/Replace/Delete/Clear/Count/Find with targets drawn from brand-new (key from the database), brand-new with a key chosen by the application, a value of a record that an earlier Unscoped step of the sequence removed for good (key still set), existing unlinked, already linked, linked to another owner, duplicate-in-call, and (Delete) a record without a row, in literal forms &T, T, []T, &[]T, []*T; " +
+		"after every step raw-SQL links and target rows, Count/Find (operated and fresh value) and the in-memory relation field are compared with the link-set model; distinct = (kind, key pools, owner mode, slice element kind, scoping, per step: op, unscoped, slice-level, target classes, changed); non-trivial = at least two steps changed the link set",
 	Assumptions: []string{
 		"every association call is made on a fresh db.Model(value).Association(name) (association handles are not reusable)",
 		"has-one / belongs-to Append and Replace get exactly one target (&T) per owner; Append/Replace on a slice of owners get exactly one argument per owner (association.go: ErrInvalidValueOfLength otherwise)",
 		"target arguments are addressable (&T, slices); a plain struct value T is only passed to Delete",
-		"brand-new records are never passed twice in one call and never passed to Delete",
+		"records that have no row (brand-new, with or without a key; removed earlier) are never passed twice in one call; brand-new records are never passed to Delete (a key without a row is: it must change nothing)",
+		"a key never consists of zero values only (gorm treats an all-zero key as 'no key' by design); keys with SOME zero-valued part are generated for owners and targets",
+		"a value of a record removed earlier is only passed again when no row is left (belongs to / has one / has many after Unscoped; soft-delete targets only after db.Unscoped()): what Append does with a row that is still stored soft-deleted is not fixed by the statement",
+		"application-chosen integer keys (1000-10n) stay clear of the keys the database hands out; after such an insert the database continues above them",
 		"has-one / has-many: appending a target that is linked to another owner moves the link (the key column holds one owner); the owner value that lost the target is stale by the caller's own doing (Append re-saves a value's whole relation field, documented behaviour), so it is reloaded from the database (scalar columns + relation field, as db.Preload(field).First(&value)) right after that step and before it is used again; takeovers are counted",
 		"a slice-level Append never gives an owner a target that a LATER owner of the same call holds in memory (the later owner would re-save it inside the same call, before any reload is possible)",
 		"a value whose links were seeded with raw SQL (not loaded into its relation field) counts as not having received every operation until its next Replace/Clear",
 		"belongs-to cases with Unscoped steps never link one target to two owners (deleting a shared target would leave a dangling key the statement says nothing about)",
 		"an Unscoped Append/Replace on a slice of has-one/has-many owners never moves a target between two owners of that call",
 		"Count on a slice of owners is accepted between the number of distinct linked records and the number of links",
-		"Delete() without targets is generated for every kind (composite keys too, since the empty multi-column IN renders a row of NULLs) and must change nothing",
+		"Delete() without targets is generated for every kind (multi-column keys too, since the empty multi-column IN renders a row of NULLs) and must change nothing",
 		"many-to-many: Unscoped removes join rows only (targets survive), as scoped",
 		"soft-delete targets: a record deleted through Unscoped association mode must be soft-deleted or gone, with db.Unscoped() gone; whether older soft-deleted rows are purged later is not checked",
+		"belongs to through value key columns: a row whose key columns are all NULL or zero names no target",
 		"only existence of associated records is demanded, not their other columns",
+		"not generated: self-referential relations, FullSaveAssociations / Select / Omit sessions in front of Association(), conditions passed to Find",
 	},
 	Cases: func(tier string) int {
+		// one block = every (relation kind, owner mode, scoping) once
 		if tier == "thorough" {
-			return 81 * 2500
+			return len(specs) * 9 * 2000
 		}
-		return 81 * 200
+		return len(specs) * 9 * 160
 	},
 	Batch: func(tier string) int {
 		if tier == "thorough" {
-			return 81 * 25
+			return len(specs) * 9 * 20
 		}
-		return 81 * 4
+		return len(specs) * 9 * 4
 	},
 	Run:           run,
 	Init:          initEnv,
